@@ -123,7 +123,39 @@ def replay(pl):
         return bounded(pl)
     parts = ob.split('.')
     want = (parts[0], parts[1] if len(parts) > 1 else 'buy', parts[2] if len(parts) > 2 else 'LIMIT')
+    if parts[0] == 'cancel-after-other':
+        want = ('cancel', parts[1], 'LIMIT')
+    if want[2] not in ('LIMIT', 'STOP', 'MARKET'):
+        want = (want[0], want[1], 'LIMIT')
     rng = random.Random(pl.get('seed', 0))
+    if 'repeated-cancellation' in ob:
+        # the same resting order cancelled twice: the second request must release nothing
+        for side, kind, q, price in (('buy', 'LIMIT', 1.0, 90.0), ('buy', 'STOP', 2.0, 110.0), ('sell', 'LIMIT', 1.0, 110.0), ('sell', 'STOP', 1.0, 90.0)):
+            p = Pair(0.0)
+            o, d = p.submit('buy', 'MARKET', 3.0, 100.0)
+            d = d or p.execute(o)
+            o, d2 = p.submit(side, kind, q, price)
+            d = d or d2 or p.cancel(o)
+            if d:
+                return {'confirmed': True, 'detail': d}
+            p.log.append('cancel the same order again')
+            o.cancel()
+            d = p.compare('the repeated cancellation')
+            if d:
+                return {'confirmed': True, 'detail': d}
+    if parts[0] == 'cancel-after-other':
+        for first in (True, False):
+            p = Pair(0.0)
+            a, d = p.submit(want[1], 'LIMIT', 1.0, 40.0) if want[1] == 'buy' else (None, None)
+            if want[1] == 'sell':
+                o, d = p.submit('buy', 'MARKET', 5.0, 100.0)
+                d = d or p.execute(o)
+                a, d2 = p.submit('sell', 'LIMIT', 1.0, 110.0)
+                d = d or d2
+            b, d2 = p.submit(want[1], 'LIMIT', 2.0, 30.0 if want[1] == 'buy' else 120.0)
+            d = d or d2 or p.cancel(a if first else b)
+            if d:
+                return {'confirmed': True, 'detail': d}
     allow = False
     try:
         import json, os
